@@ -6,6 +6,7 @@ from vlib import *
 import envgen as eg
 
 PID = "C04"
+SIG_NON_OBJECT = "C04.non_object_frame"
 # the frames of the property's own examples, tried against every (P, E) pair first
 REGRESSION = [
     eg.O(("error", "io.systemd.System")),
@@ -76,9 +77,12 @@ def gen_cases(ck):
                 rng.shuffle(dv)
                 for d in dv[: (12 if quick else 60)]:
                     add("reply", eg.Obj(d), dict(tags, **{"class": "duplicated"}), p=pname, e=ename)
-            # array-shaped frames: malformed stream, compared with the model only
+            # frames that are not JSON objects: a reply frame is an object, anything else has to be a
+            # decode error (serde's derived visitors also accept sequence forms of enums and structs)
             for arr in eg.array_frames(rng, pname, ename):
-                add("reply", arr, {"class": "array", "shape": "array"}, p=pname, e=ename)
+                add("reply", arr, {"class": "non_object", "shape": "array"}, p=pname, e=ename)
+            for sc in (None, True, 5, "org.example.E.Busy", eg.Flt("1.5")):
+                add("reply", sc, {"class": "non_object", "shape": "scalar"}, p=pname, e=ename)
     # proxy methods (generated code on top of call_method)
     for meth, (unit, ename, pname) in eg.PROXY.items():
         frames = eg.reply_frames(rng, pname, ename, quick)
@@ -92,6 +96,8 @@ def gen_cases(ck):
             ms = list(ms)
             rng.shuffle(ms)
             add("proxy", eg.Obj(ms), dict(tags, **{"class": "product"}), meth=meth)
+        for arr in eg.array_frames(rng, pname, ename) + [None, 5, "s"]:
+            add("proxy", arr, {"class": "non_object", "shape": "array" if isinstance(arr, list) else "scalar"}, meth=meth)
     return cases
 
 
@@ -140,9 +146,23 @@ def main():
             ck.violation("model evaluation failed: " + str(e)[:300], {"log": str(e)}, tag="eval-" + name, no_input=True)
             return
         n_spec = n_model = 0
+        n_nonobj = [0]
         for idx in sorted(bad):
             c, r = items[idx]
             code = bad[idx]
+            if code & 64:
+                # a frame that is not a JSON object reported as something else than a decode error
+                if n_nonobj[0] < 4:
+                    n_nonobj[0] += 1
+                    model = ck.coq_show(eg.HEADER, "%s (%s)" % (show, render(c, r)))
+                    ck.violation("a frame that is not a JSON object was not reported as a decode error (%s, %s): %s -> %s"
+                                 % (c.get("p", c.get("meth")), c.get("e", ""), c["frame"][:100],
+                                    (r.get("recv") or r.get("res"))["k"]),
+                                 {"case": pub(c), "impl": r, "model_spec": model, "code": code}, tag="n%d" % c["id"],
+                                 sig=SIG_NON_OBJECT)
+                if not code & 1:
+                    continue
+                code &= ~64
             spec = code & (2 | 4)
             if (spec and n_spec >= 6) or (not spec and n_model >= 4):
                 continue
@@ -191,6 +211,8 @@ def main():
         "traces_validated_against_impl": len(reply_items) + len(proxy_items),
         "case_classes": hist, "impl_outcomes": outcomes, "frame_dimensions": per_dim,
         "pairs": "%d parameter types x %d error types" % (len(eg.PTYPES), len(eg.ETYPES)),
+        "receive_reply_object_only": list(eg.receive_reply_object_only()),
+        "non_object_frames": sum(1 for c, _ in reply_items + proxy_items if not isinstance(c["tree"], eg.Obj)),
         "parameter_types": sorted(eg.PTYPES), "error_types": sorted(eg.ETYPES), "proxy_methods": sorted(eg.PROXY),
         "frames_with_error_member": sum(1 for c, _ in reply_items + proxy_items
                                         if isinstance(c["tree"], eg.Obj) and "error" in c["tree"].keys()),
